@@ -867,6 +867,9 @@ func main() {
 		{"merge-zoom0", block(0, 0, 0, 1, 1), 0},
 		{"merge-zoom1", block(1, 0, 0, 2, 2), 1},
 		{"merge-zoom22", append(block(22, 1<<22-4, 1<<21, 2, 2), block(22, 1<<22-2, 1<<21, 2, 2)...), 22},
+		// the same shape where the row numbers have bits set above bit 16 and in every byte (keys, hashes or packed
+		// coordinates that are narrower than the tile numbers fold such rows onto each other)
+		{"merge-zoom22-high-rows", append(block(22, 1<<21+1<<17+4, 1<<21+1<<18+1<<17+1<<9+2, 2, 2), block(22, 1<<21+1<<17+6, 1<<21+1<<18+1<<17+1<<9+2, 2, 2)...), 22},
 	} {
 		st = r.ExploreSharded(sm.name, fmt.Sprintf("all subsets of a %d-tile block at zoom %d x target zoom 0..%d x MergeUp / MergeUpPartial(1..4), sorted / reversed / rotated order", len(sm.blk), sm.z, sm.z), mc.Opts{MaxDev: -1}, 4, mergeDriver(sm.blk, sm.z, false))
 		r.States += st.Execs
